@@ -847,12 +847,14 @@ class Lexer:
 
             if kind == "OUTPUT":
                 self.markup_start = self.start
+                self.in_range = False
                 self.wc.append(self.WC_MAP[match.group("OUT_WC")])
                 self.ignore()
                 return self.lex_inside_output_statement
 
             if kind == "TAG":
                 self.markup_start = self.start
+                self.in_range = False
                 self.wc.append(self.WC_MAP[match.group("TAG_WC")])
                 tag_name = match.group("TAG_NAME")
                 self.tag_name = tag_name
@@ -1019,6 +1021,9 @@ class Lexer:
         if self.accept(self.RE_TAG_NAME):
             self.tag_name = self.source[self.start : self.pos]
             self.line_start = self.start
+            # A `..` outside parentheses is the parser's to reject. It must not
+            # make a `)` of a later statement look like the end of a range.
+            self.in_range = False
             self.ignore()
             return (
                 self.lex_inside_liquid_block_comment
